@@ -1571,6 +1571,18 @@ def metacall():
                 # System Predicate string
                 return Predicate.System(arg)
 
+        if cls is Predicate and isinstance(Predicate.System, type):
+            # System Predicate spec (negative index), independently of the cache.
+            sysspec = spec[0] if len(spec) == 1 else spec
+            if (
+                isinstance(sysspec, tuple) and len(sysspec) == 3 and
+                isinstance(sysspec[0], int) and sysspec[0] < 0
+            ):
+                try:
+                    return Predicate.System(sysspec)
+                except (KeyError, ValueError):
+                    pass
+
         # Invoked class name.
         clsname = cls.__name__
         
